@@ -146,7 +146,7 @@ func main() {
 			fmt.Printf("== %s: %d obligations, unsupported: %v\n", g.key, len(g.obls), g.unsupported)
 			for _, o := range g.obls {
 				fmt.Printf("  %-8s %-10s %6.2fs  %s  [%s]\n", o.Result, o.Solver, o.TimeS, o.Name, o.Pos)
-				if o.Result != "unsat" && verbose {
+				if (o.Result != "unsat" || os.Getenv("VERIF_SHOW") == o.Name) && verbose {
 					fmt.Println(o.Script)
 					fmt.Println(o.Model)
 				}
